@@ -63,10 +63,15 @@ def core(ctx):
 
 
 def _depth(spec):
+    fi = {n: fanin for n, t, fanin, o in spec["nodes"]}
     d = {}
-    for n, t, fanin, o in spec["nodes"]:
-        d[n] = 1 + max(d[f] for f in fanin) if fanin else 0
-    return max(d.values()) if d else 0
+
+    def dep(n):
+        if n not in d:
+            d[n] = 1 + max(dep(f) for f in fi[n]) if fi[n] else 0
+        return d[n]
+
+    return max([dep(n) for n in fi] + [0])
 
 
 @st.composite
@@ -88,7 +93,18 @@ def _case(draw, ctx):
         if d < 2:
             return {"op": "unroll", "spec": spec, "tables": tables}
         stages = draw(st.integers(1, min(3, d - 1)))
-        return {"op": op, "stages": stages, "spec": spec, "tables": tables}
+        variant = draw(st.sampled_from(["default", "default", "clk_exists", "no_side_pins"]))
+        if variant == "clk_exists":
+            # the design already has a node called clk (a gate, or an input that is also an output)
+            cands = [x for x in spec["nodes"] if x[1] in S.ALL_GATES or x[1] == "input"]
+            x = draw(st.sampled_from(cands))
+            old_name = x[0]
+            for y in spec["nodes"]:
+                y[2] = ["clk" if f == old_name else f for f in y[2]]
+            x[0] = "clk"
+            if x[1] == "input" and draw(st.booleans()):
+                x[3] = True
+        return {"op": op, "stages": stages, "spec": spec, "tables": tables, "variant": variant}
     spec = draw(S.circuit_spec(min_inputs=1, max_inputs=5, min_gates=1, max_gates=10, max_fanin=4,
                                io_outputs=True))
     return {"op": "unroll", "spec": spec, "tables": tables}
@@ -180,44 +196,70 @@ def check(case, ctx):
         return {"nontrivial": before > k, "labels": labels}
     if op == "regs":
         stages = case["stages"]
-        r = need(lib(cg.tx.insert_registers, c, stages), "regs", f"insert_registers(c,{stages})")
+        variant = case.get("variant", "default")
+        flop = cg.generic_flop
+        dport, qport, side = "d", "q", {"clk": "clk"}
+        if variant == "no_side_pins":
+            flop = cg.BlackBox("cell", ["d"], ["q"])
+            side = {}
+            r = need(lib(cg.tx.insert_registers, c, stages, ff=flop, other_flop_io={}), "regs", f"insert_registers(c,{stages},ff=cell,other_flop_io={{}})")
+        elif variant == "custom_ports":
+            flop = cg.BlackBox("dffr", ["CK", "D", "R"], ["Q"])
+            dport, qport, side = "D", "Q", {"clk": "CK", "rstn": "R"}
+            r = need(lib(cg.tx.insert_registers, c, stages, ff=flop, d_port="D", q_port="Q", other_flop_io=dict(side)),
+                     "regs", f"insert_registers(c,{stages},ff=dffr,...)")
+        else:
+            r = need(lib(cg.tx.insert_registers, c, stages), "regs", f"insert_registers(c,{stages})")
+        labels.append("regs_" + variant)
         if refsim.snapshot(c) != snap:
             raise Violation("regs|mutates_argument", "argument modified")
         if r.outputs() != c.outputs():
             raise Violation("regs|outputs", "insert_registers changed the output set")
-        if r.inputs() - {"clk"} != c.inputs():
-            raise Violation("regs|inputs", f"insert_registers inputs {sorted(r.inputs())}")
+        new_inputs = {n for n in side if n not in c.graph.nodes}
+        if set(r.inputs()) != set(c.inputs()) | new_inputs:
+            raise Violation("regs|inputs", f"insert_registers inputs {sorted(r.inputs())}, expected {sorted(set(c.inputs()) | new_inputs)}")
         bad = refsim.ref_lint(r)
         if bad:
             raise Violation("regs|lint", f"insert_registers result not lint-clean: {bad[:3]}")
         g = r.graph.copy()
         qbufs = {}
+        side_drv = []
         for iname, bb in r.blackboxes.items():
-            if bb is not cg.generic_flop:
+            if bb is not flop:
                 raise Violation("regs|flop_type", f"instance {iname} is not the given flop")
-            dp, qp, cp = f"{iname}.d", f"{iname}.q", f"{iname}.clk"
-            for p in (dp, qp, cp):
+            dp, qp = f"{iname}.{dport}", f"{iname}.{qport}"
+            sides = {f"{iname}.{pin}": net for net, pin in side.items()}
+            for p in [dp, qp] + list(sides):
                 if p not in g:
                     raise Violation("regs|pins", f"pin {p} missing")
             dd = list(g.pred[dp])
             ql = list(g.succ[qp])
             if len(dd) != 1 or len(ql) != 1:
                 raise Violation("regs|pin_wiring", f"{iname}: d drivers {dd}, q loads {ql}")
-            if list(g.pred[cp]) != ["clk"]:
-                raise Violation("regs|clk", f"{iname}: clk pin driven by {list(g.pred[cp])}")
+            for p, net in sides.items():
+                side_drv.append((p, list(g.pred[p]), net))
             if g.nodes[ql[0]].get("type") != "buf" or ql[0] in c.graph.nodes:
                 raise Violation("regs|q_buffer", f"{iname}: q drives {ql[0]!r} which is not a new buffer")
             qbufs[ql[0]] = dd[0]
-            g.remove_nodes_from([dp, qp, cp])
+            g.remove_nodes_from([dp, qp] + list(sides))
             g.add_edge(dd[0], ql[0])
-        extra = set(g.nodes) - set(c.graph.nodes) - set(qbufs) - {"clk"}
+        for p, drv, net in side_drv:
+            # the side net may itself have been registered: follow the q buffers back to it
+            d0 = drv[0] if len(drv) == 1 else None
+            seen = 0
+            while d0 in qbufs and seen < 100:
+                d0 = qbufs[d0]
+                seen += 1
+            if d0 != net:
+                raise Violation("regs|clk", f"side pin {p} driven by {drv}, expected net {net!r}")
+        extra = set(g.nodes) - set(c.graph.nodes) - set(qbufs) - new_inputs
         if extra or (set(c.graph.nodes) - set(g.nodes)):
             raise Violation("regs|nodes", f"unexpected node set change: +{sorted(extra)} -{sorted(set(c.graph.nodes) - set(g.nodes))}")
         transparent = G(g)
         free, asg, W = _tables(c, case)
         asg2 = dict(asg)
-        if "clk" in g.nodes and "clk" not in asg2:
-            asg2["clk"] = 0
+        for n in new_inputs:
+            asg2[n] = 0
         v0 = refsim.simulate(c, asg, W)
         v1 = refsim.simulate(transparent, asg2, W)
         for n in v0:
